@@ -196,6 +196,11 @@ def random_fn(rng, name, profile, helpers=(), in_module=False, forbid_names=()):
             f.body_extra = ((f.body_extra + " ") if f.body_extra else "") + "%s.push(::vrt::HasName::name(%s));" % (names[0], f.deps_name)
     if f.deps_kind.startswith("impl") and not f.bounds:
         f.bounds = []
+    if rng.random() < 0.25 and name.isidentifier() and not name.startswith("r#"):
+        # a destructuring pattern whose single binding is spelled like the fn itself (legal: the fn is not recursive)
+        one = [p_ for p_ in f.params if p_.form == "destr" and len(p_.names) == 1]
+        if one and all(name not in p_.names for p_ in f.params):
+            one[0].names = [name]
     return f
 
 
